@@ -41,6 +41,11 @@ func genSched(r *Rng, phase string) []*Scenario {
 	if r.Chance(0.1) {
 		nt = r.Range(6, 8)
 	}
+	if r.Chance(0.04) {
+		// "any number of goroutines": more overlapping calls than any fixed
+		// number of slots, shards or pooled buffers a change may provide
+		nt = []int{9, 12, 17, 24, 33}[r.Intn(5)]
+	}
 	wsum := 0
 	for _, k := range taskKinds {
 		wsum += k.w
